@@ -172,6 +172,8 @@ class Types:
         self._inst_seen = set()
         self.used_records = []  # ordered record names referenced by value
         self.opaque = opaque or {}
+        # class templates whose *real* instantiations are lowered as records (units about BlockTable itself); elsewhere BlockTable is abstract (A7)
+        self.real = set(self.opaque.get('@real', '').split())
 
     def need(self, macro, name, *elems):
         k = (macro, name)
@@ -213,6 +215,10 @@ class Types:
         if n in ('std::__detail::_Node_iterator', 'std::__detail::_Node_const_iterator', 'std::__detail::_Node_iterator_base'):
             return 'iter', t
         s = self.strip_ns(n)
+        if s in self.real and t.args:
+            nm = s + '_' + self.mangle(t.args[0])
+            if nm in self.ast.records:
+                return 'record', T('named', nm)
         if s == 'BlockTable':
             return 'bt', t
         if s == 'Writer' and t.args:
